@@ -104,6 +104,17 @@ PROPS["C08"] = {
     "design_ref": "DESIGN.md section 5 C08",
 }
 
+PROPS["C09"] = {
+    "world": "ring", "level": "fault_enumeration", "quick_s": 25, "thorough_s": 600,
+    "rule": "crash points are enumerated from the run index: scenario (fresh join, join with observe period, restart from tokens file, leave with / without unregistering, token hand-over, ring wipe, KV outage, wipe while leaving, tokens-file faults) x lifecycler kind (classic, basic) x fault point (store write k=1..10 before / after its commit; tokens-file operation j=1..8 crash before / after / torn write / error); bystander lifecyclers and all interleavings are drawn from the choice vector; one evaluation = one such history including the restart and a bounded fault-free recovery window; non-trivial = the crash landed at the second or a later write of the phase, or on a tokens-file operation, or the scenario is a wipe / outage; distinct = distinct released-task/action sequence hash among non-trivial runs; probes 'crash-point:<scenario>:<kind>:<point>' list the enumerated points actually reached",
+    "real": _RING_REAL, "stub": _RING_STUB,
+    "assumptions": _ASSUME_COMMON + ["a crash is a process crash: the goroutines of the instance never run again, only the KV content and the tokens file survive; data written with write() survives (no power-loss model: the code under test never fsyncs)", "the wipe fault is not injected while a CAS is between its read and its write: the in-memory consul store would accept the stale write on the deleted key (a real consul does not)", "recovery is demanded within 2 min + join-after + 4 x observe period of fault-free virtual time"],
+    "level_text": "systematic enumeration of crash points (every store write before/after commit, every tokens-file operation) per scenario and lifecycler kind, each explored under seeded interleavings with bystanders; recovery obligations checked after a bounded fault-free window",
+    "level_note": "trusted: simulator engine, simkv crash injection (the writer's goroutine blocks forever before / after the store accepted the write), simos disk",
+    "design_ref": "DESIGN.md section 5 C09",
+    "technique": "deterministic simulation with systematic crash-point enumeration (store writes and tokens-file operations) plus seeded schedules",
+}
+
 HOOK_COMMITS = []
 
 _PENDING = "claimed in DESIGN.md; check not yet registered (implementation in progress)"
